@@ -221,6 +221,33 @@ def run_set(rep, run_id, lib_rs, wd, events, build=True, entry=None, cwd=None, c
     return outs
 
 
+LIFE_BODIES = """#![allow(unused, non_snake_case, clippy::all)]
+#[diplomat::bridge]
+pub mod lb {
+    #[diplomat::opaque]
+    pub struct Leaf(pub u8);
+    #[diplomat::opaque]
+    pub struct Pair<'a, 'b>(pub &'a Leaf, pub &'b Leaf);
+    impl<'a, 'b> Pair<'a, 'b> {
+        pub fn w_no_generics(&self) -> &'b Leaf where 'a: 'b { self.0 }
+        pub fn w_with_generics<'c>(&self, other: &'c Leaf) -> &'c Leaf where 'b: 'c { if other.0 > 0 { other } else { self.1 } }
+        pub fn inline_generics<'c>(&'c self) -> &'c Leaf { self.0 }
+        pub fn inline_bound<'c, 'd: 'c>(&self, x: &'d Leaf, y: &'c Leaf) -> &'c Leaf { if y.0 > 0 { y } else { x } }
+    }
+    #[diplomat::opaque]
+    pub struct Pair2<'a, 'b>(pub &'a Leaf, pub &'b Leaf);
+    impl<'a: 'b, 'b> Pair2<'a, 'b> {
+        pub fn impl_inline(&self) -> &'b Leaf { self.0 }
+    }
+    #[diplomat::opaque]
+    pub struct Pair3<'a, 'b>(pub &'a Leaf, pub &'b Leaf);
+    impl<'a, 'b> Pair3<'a, 'b> where 'a: 'b {
+        pub fn impl_where(&self) -> &'b Leaf { self.0 }
+    }
+}
+"""
+
+
 def run(rep, tier):
     wd = rep.wd
     rep.rule = ("program sets = reference graphs over <=3 types enumerated by TLC (kinds, by-value, pointer and method edges incl. cycles) "
@@ -257,6 +284,10 @@ def run(rep, tier):
             labels.append((src.count("\n") + 1, "graph %s" % json.dumps(g, sort_keys=True)))
             src += "#[diplomat::bridge]\npub mod g%d {\n%s}\n" % (i + k, graph_program(i + k, g, rng))
         run_set(rep, "graphs%d" % (i // 200), src, wd, events, labels=labels)
+    # ---- set 1b: lifetime bounds that method BODIES rely on, in every place Rust lets one write them (inline on the method's or the
+    # impl's generic list, in a where clause of a method with and WITHOUT a generic list of its own, in a where clause of the impl):
+    # the extern "C" wrapper the macro writes has to carry them or rustc refuses the expansion
+    run_set(rep, "lifebodies", LIFE_BODIES, wd, events)
     # ---- set 2: every shape the gate accepts for the C profile, compiled by the real macro
     g = lib.tlc("gate", "MC_Gate", "gate1_emit.cfg" if tier == "quick" else "gate2_emit.cfg", workers=8, coverage=False, timeout=600)
     gcases = [c for c in g.printed["CASE"] if c["accept"] and not c["urefs"] and set(c["need"]) <= {"option", "callbacks", "traits", "static_slices"}
